@@ -20,7 +20,8 @@ from .. import comps
 from feems.components_model.utility import IntegrationMethod
 
 THEOREMS = ["energy_formula", "energy_single", "soc_formula", "acc_length", "acc_last", "socAcc_last",
-            "cell_le", "stored_le_terminal", "roundtrip_soc_le", "roundtrip_simple", "terminal_cell"]
+            "cell_le", "stored_le_terminal", "roundtrip_soc_le", "roundtrip_simple", "terminal_cell",
+            "spread_length", "constant_as_single_value", "accC_last"]
 
 
 def gen_case(rng, idx):
@@ -49,6 +50,13 @@ def gen_case(rng, idx):
                 p.append(float(np.round(rng.choice([-1, 1]) * rng.uniform(max(lo_l, 0.02), hi_l) * lim, 3)))
         dt = [float(np.round(rng.choice([1.0, 10.0, 60.0, rng.uniform(0.5, 3600)]), 2)) for _ in range(n)]
     scalar_dt = n == 1 and rng.random() < 0.5
+    if mode != "roundtrip" and n > 1 and rng.random() < 0.2:
+        # a constant terminal power held as a single value (an array of one element or a python number) over the interval series
+        mode = "constant-single"
+        p = p[:1]
+        how = str(rng.choice(["one-element array", "python number"]))
+        core.axis("constant_terminal_power", how)
+        return {"idx": idx, "spec": spec, "p": p, "dt": dt, "mode": mode, "p_as_number": how == "python number"}
     return {"idx": idx, "spec": spec, "p": p, "dt": dt[0] if scalar_dt else dt, "mode": mode}
 
 
@@ -60,7 +68,7 @@ def run_case(ctx, case, model=True):
     where = {"case": case}
     ctx.count("kind", spec["kind"])
     ctx.count("mode", case["mode"])
-    comp.power_input = p.copy()
+    comp.power_input = float(p[0]) if case.get("p_as_number") else p.copy()
     M = IntegrationMethod.sum_with_time
     try:
         e = comp.get_energy_stored_kj(dt, M)
@@ -73,7 +81,7 @@ def run_case(ctx, case, model=True):
     except Exception as ex:
         ctx.fail("predicate", "storage-raises-" + core.error_class(ex), f"{type(ex).__name__}: {ex}", where)
         return False
-    if not np.array_equal(comp.power_input, p):
+    if not np.array_equal(np.atleast_1d(comp.power_input), p):
         ctx.fail("predicate", "storage-input-mutated", f"power_input changed: {p} -> {comp.power_input}", where)
     # oracle: converter output at every sample
     if "converter" in spec:
@@ -85,6 +93,10 @@ def run_case(ctx, case, model=True):
         conv = p.copy()
         viol = []
     # predicates on the implementation alone
+    if case["mode"] == "constant-single":      # the constant written out: what the figures are judged against
+        single = p
+        p = np.full(len(dt), p[0])
+        conv = np.full(len(dt), conv[0])
     dts = np.broadcast_to(np.asarray(dt, dtype=float), p.shape)
     cap = spec["capacity"]
     div = 3.6 if spec["kind"].startswith("supercap") else 3600.0
@@ -103,7 +115,8 @@ def run_case(ctx, case, model=True):
     if model and ctx.model_available:
         out = ctx.model.call("storage.eval", eta_c=enc(spec["eta_c"]), eta_d=enc(spec["eta_d"]), soc0=enc(spec["soc0"]),
                              capacity=enc(cap), supercap=spec["kind"].startswith("supercap"),
-                             p=[enc(x) for x in p], conv=[enc(x) for x in conv],
+                             p=[enc(x) for x in (single if case["mode"] == "constant-single" else p)],
+                             conv=[enc(x) for x in (conv[:1] if case["mode"] == "constant-single" else conv)],
                              dt=[enc(x) for x in dt] if isinstance(dt, np.ndarray) else enc(dt))
         scale = float(np.dot(np.abs(p), dts))
         if out["energy"] is None:
@@ -121,7 +134,7 @@ def run_case(ctx, case, model=True):
                 ctx.fail("correspondence", "soc-acc", f"model {[float(x) for x in ms]} impl {list(soc_acc)}", where)
     # the caller changes its own series in place (p *= -1: the same energy back) and asks again: the answer follows the series now held,
     # i.e. equals what a fresh unit reports for it
-    if case["idx"] % 3 == 0 and any(case["p"]):
+    if case["idx"] % 3 == 0 and any(case["p"]) and not case.get("p_as_number"):
         try:
             comp.power_input *= -1
             e2, soc2 = comp.get_energy_stored_kj(dt, M), comp.get_soc(dt, M)
